@@ -351,6 +351,8 @@ type callSpec struct {
 	SignerNil bool              `json:"signer_nil,omitempty"`
 	RepoNil   bool              `json:"repo_nil,omitempty"`
 	Ref       string            `json:"ref"`
+	RefKind   string            `json:"ref_kind"`
+	MetaKind  string            `json:"metadata_kind"`
 	Mt        string            `json:"media_type"`
 	Expiry    int64             `json:"expiry_ns"`
 	Agent     string            `json:"agent,omitempty"`
@@ -521,11 +523,11 @@ func pickKind(r *Rng) string {
 		return "nil"
 	case x < 20:
 		return "empty"
-	case x < 50:
+	case x < 60:
 		return "disjoint"
-	case x < 70:
+	case x < 76:
 		return "colliding"
-	case x < 88:
+	case x < 90:
 		return "reserved"
 	}
 	return "mixed"
@@ -676,11 +678,14 @@ func (g *genCtx) history(w *CaseWriter, r *Rng, id int64, mode string) error {
 		}
 		tableTerms = append(tableTerms, CPair(CStr(p), CApp("mk_desc", CStr(d.MediaType), CStr(string(d.Digest)), CZ(d.Size), CStr(restOf(d)), aref)))
 		hd.Table[p] = d.Annotations
-		targets = append(targets, target{p, d.Annotations})
+		isBad := false
 		if p != string(d.Digest) {
 			if _, e := digest.Parse(p); e == nil {
-				badRefs = append(badRefs, p)
+				isBad = true
 			}
+		}
+		if !isBad {
+			targets = append(targets, target{p, d.Annotations})
 		}
 		if !seenDg[string(d.Digest)] {
 			seenDg[string(d.Digest)] = true
@@ -705,21 +710,25 @@ func (g *genCtx) history(w *CaseWriter, r *Rng, id int64, mode string) error {
 		c := &callSpec{}
 		// reference
 		t := Pick(r, targets)
+		c.RefKind = "as-resolved"
 		switch x := r.Intn(100); {
 		case x < 55:
 			c.Ref = t.ref
-		case x < 70:
+		case x < 72:
+			c.RefKind = "full"
 			if _, e := digest.Parse(t.ref); e == nil {
 				c.Ref = "reg.example.test/repo@" + t.ref
 			} else {
 				c.Ref = "reg.example.test/repo:" + t.ref
 			}
-		case x < 82 && len(badRefs) > 0:
+		case x < 80 && len(badRefs) > 0:
+			c.RefKind = "digest-resolving-elsewhere"
 			c.Ref = Pick(r, badRefs)
 			if r.Chance(1, 3) {
 				c.Ref = "localhost:5000/r@" + c.Ref
 			}
-		case x < 88:
+		case x < 85:
+			c.RefKind = "unresolvable"
 			c.Ref = Pick(r, []string{"missing", "", "reg.example.test/repo:missing", D[3], "sha256:zz", "reg.example.test/repo@" + D[3], "BAD REF:v1"})
 		default:
 			c.Ref = t.ref
@@ -747,9 +756,10 @@ func (g *genCtx) history(w *CaseWriter, r *Rng, id int64, mode string) error {
 		// metadata against the annotations of what the reference resolves to
 		targetAnn := t.ann
 		if prev != nil && r.Chance(1, 2) {
-			c.meta = prev.meta
+			c.meta, c.MetaKind = prev.meta, prev.MetaKind
 		} else {
-			c.meta = genMeta(r, pickKind(r), targetAnn)
+			c.MetaKind = pickKind(r)
+			c.meta = genMeta(r, c.MetaKind, targetAnn)
 		}
 		if r.Chance(1, 40) && targetAnn != nil {
 			c.meta = targetAnn // the caller passes the artifact's own annotation map as metadata
@@ -985,8 +995,12 @@ func (g *genCtx) history(w *CaseWriter, r *Rng, id int64, mode string) error {
 		}
 		w.Count("result", class)
 		w.Count("mode", mode)
-		if len(rec.signs) > 0 {
-			w.Count("signed_annotations", fmt.Sprint(strings.Count(rec.signs[0], "\", \"")))
+		w.Count("metadata_kind", c.MetaKind)
+		w.Count("reference_kind", c.RefKind)
+		w.Count("plugin_annotations", c.PA)
+		w.Count("call_index", fmt.Sprint(k))
+		if k > 0 && calls[k-1].Result == "ROk" && class == "ROk" {
+			w.Count("consecutive_successes", "yes")
 		}
 	}
 	hd.Calls = calls
